@@ -110,13 +110,47 @@ def persistence_rule(ctx, rid):
     si = crop.methods["save_info"]
     g = build_cfg(si.node)
     ctx.touch(si, g)
-    cp = [n for n in g.nodes if n.kind == "stmt" and norm(n.ast) == "farmer_copy = copy.deepcopy(self.farmer)"]
-    cl = [n for n in g.nodes if n.kind == "stmt" and norm(n.ast) == "farmer_copy.fn = None"]
-    pk = [n for n in g.nodes if n.kind == "stmt" and norm(n.ast) == "farmer_pkl = to_pickle(farmer_copy)"]
-    if cp and cl and pk and g.completes_before(cp[0].id, cl[0].id) and g.completes_before(cl[0].id, pk[0].id):
+    # by role: the function (save_info or a helper it calls) that pickles a farmer: V = deepcopy(farmer); V.fn = None; to_pickle(V)
+    from ..util import callee_func
+    cands = [si] + [h for h in {callee_func(ctx, si, c_) for _, c_, _n in all_calls(ctx, si)} if h is not None and h.module is si.module and h is not si]
+    verdict = None
+    for fn_ in cands:
+        gg = build_cfg(fn_.node)
+        pk = [(n, c_) for n, c_, nm_ in all_calls(ctx, fn_, gg) if nm_ == CROP + ".to_pickle" and c_.args and isinstance(c_.args[0], ast.Name)]
+        if not pk:
+            continue
+        ctx.touch(fn_, gg)
+        pn, pc_ = pk[0]
+        v = pc_.args[0].id
+        d = single_def(fn_, v, gg)
+        is_copy = d is not None and isinstance(d[1], ast.Call) and norm(d[1].func) in ("copy.deepcopy", "deepcopy") and "farmer" in norm(d[1])
+        clears = [n for n in gg.nodes if n.kind == "stmt" and isinstance(n.ast, ast.Assign) and norm(n.ast.targets[0]) == v + ".fn" and isinstance(n.ast.value, ast.Constant) and n.ast.value.value is None]
+        if is_copy and clears and gg.completes_before(d[0].id, clears[0].id) and gg.completes_before(clears[0].id, pn.id):
+            verdict = "ok"
+        elif d is None or not is_copy or not clears:
+            verdict = ("bad", fn_, pc_)
+        break
+    if verdict == "ok":
+        # ... and does so in this very call, on every path to the write (a pickle memoised on the crop goes stale when the farmer changes between sows)
+        from ..flow import Flow, NOTNONE
+        fls = Flow(g, {"self.farmer": NOTNONE}).run()
+        wr = [n for n, c_, nm_ in all_calls(ctx, si, g) if nm_ == CROP + ".write_to_disk" and n.id in fls.visited]
+        need(wr, "anchor lost: save_info does not write the settings")
+        if fn_ is si:
+            xs = [pn]
+        else:
+            xs = [n for n, c_, nm_ in all_calls(ctx, si, g) if callee_func(ctx, si, c_) is fn_ and n.id in fls.visited]
+        if xs and all(any(g.completes_before(x.id, w.id, feasible=fls.feasible) for x in xs) for w in wr):
+            rr.ok("save_info pickles a deep copy of the farmer with fn cleared (the live farmer keeps its function), afresh on every call")
+        else:
+            rr.bad(ctx.finding(rid, si, pc_, "the farmer's pickle is not recomputed on every path to the settings write (it is memoised): a later sow of the same crop object persists the farmer as it was at the first sow, so a reloaded crop reaps with stale constants, "
+                               "attributes or data name", construct="farmer-pickle-memoised"), "farmer pickled afresh")
+    elif verdict == "OLD":
         rr.ok("save_info pickles a deep copy of the farmer with fn cleared (the live farmer keeps its function)")
+    elif verdict is None:
+        raise AnalysisError("idiom changed: save_info (and its helpers) never pickle the farmer with to_pickle")
     else:
-        rr.bad(ctx.finding(rid, si, si.node, "save_info no longer pickles a *copy* of the farmer with its function cleared (the live farmer loses fn, or the function is pickled with plain pickle)", construct="farmer-copy"), "farmer copy")
+        rr.bad(ctx.finding(rid, verdict[1], verdict[2], "save_info no longer pickles a *copy* of the farmer with its function cleared (the live farmer loses fn, or the function is pickled with plain pickle)", construct="farmer-copy"), "farmer copy")
     lf = crop.methods["load_function"]
     ctx.touch(lf)
     txt = " ".join(norm(s) for s in lf.node.body)
@@ -244,9 +278,7 @@ def sow_constants_rule(ctx, rid):
     crop = prog.need_cls(CROP + ".Crop")
     si = crop.methods["save_info"]
     rec = None
-    for nd, c, nm in all_calls(ctx, si):
-        if nm == CROP + ".write_to_disk" and c.args and isinstance(c.args[0], ast.Dict):
-            rec = c.args[0]
+    rec = shared.record_table(ctx)[1]
     need(rec is not None, "idiom changed: save_info record")
     keys = {k.value: norm(v) for k, v in zip(rec.keys, rec.values) if isinstance(k, ast.Constant)}
     for name in ("sow_combos", "sow_cases"):
